@@ -8,6 +8,8 @@ extra = ""
 # so they are not registered.  The same lemma over the same type is still decided for the other readers where listed.
 DROPPED = {
     "trunc_s2_spec": "solver out of memory (14 GB)", "trunc_s2_ped": "timeout", "trunc_s2_buf": "timeout", "trunc_s2_bnd": "timeout",
+    # measured again in the last thorough run, also when run alone: the solver exhausts the 14 GB limit
+    "dec_s2_spec": "solver out of memory (14 GB)", "dec_s2_ped": "solver out of memory (14 GB)", "dec_s2_buf": "solver out of memory (14 GB)", "dec_s2_bnd": "solver out of memory (14 GB)",
 }
 def job(name, props, unwind, tier="quick"):
     if name in DROPPED:
